@@ -355,7 +355,7 @@ def rule_empty_guard(ctx: Ctx, clause="C08.10") -> RuleResult:
         cls = p.cls(cq)
         # the widget API, and the setters of the class's option properties (cell_width, ...): assigning an option of an
         # empty container is as legitimate as asking it for its rows
-        setters = [(f"{pn} setter", pr.setter) for pn, pr in sorted(cls.props.items()) if pr.setter is not None and pn not in ("focus_position", "focus", "contents", "focus_item", "focus_cell", "focus_col", "widget_list", "cells")]
+        setters = [(f"{pn} setter", pr.setter) for pn, pr in sorted(cls.props.items()) if pr.setter is not None and pn not in ("focus_position", "focus", "contents", "focus_item", "focus_cell", "focus_col")]
         for name, fi in [*[(n_, cls.methods.get(n_)) for n_ in API], *setters]:
             if fi is None:
                 continue
@@ -801,10 +801,23 @@ def rule_widget_none_test(ctx: Ctx, clause="C08.23") -> RuleResult:
     focus path is cut short, rows_max() is 0, iteration stops early)."""
     p = ctx.p
     rr = RuleResult("SENTINEL", clause, "a widget obtained from the walker (get_focus / get_next / get_prev) is compared with None by identity, never tested for truthiness", floor=20)
-    for fi in p.modules["urwid.widget.listbox"].functions:
+    mods = [p.modules[m] for m in ("urwid.widget.listbox", "urwid.widget.grid_flow") if m in p.modules]
+    for fi in [f for m in mods for f in m.functions]:
         if fi.is_lambda:
             continue
         wn = set()
+        # a local bound to some container's `.focus` (the focus *widget*, or None when the container is empty)
+        for n in fi.own_nodes():
+            if isinstance(n, ast.Assign) and isinstance(n.targets[0], ast.Name) and isinstance(n.value, ast.Attribute) and n.value.attr == "focus":
+                wn.add(n.targets[0].id)
+        for n in fi.own_nodes():
+            tests = [n.test] if isinstance(n, (ast.If, ast.While, ast.IfExp)) else []
+            for t in tests:
+                for x in (list(t.values) if isinstance(t, ast.BoolOp) else [t]):
+                    y = x.operand if isinstance(x, ast.UnaryOp) and isinstance(x.op, ast.Not) else x
+                    if isinstance(y, ast.Attribute) and y.attr == "focus" and not (isinstance(y.value, ast.Name) and y.value.id == fi.self_name):
+                        rr.inst(f"{short(fi)}: {norm(t, 30)}", True)
+                        rr.add(finding("SENTINEL", fi, t, f"`{norm(t, 40)}` tests a focus *widget* for truthiness; an empty container (Pile([]) as a GridFlow cell) is falsy although it is the focus: it is taken for 'no focus'", construct=f"widget {ast.unparse(y)} tested for truthiness"))
         for n in fi.own_nodes():
             if isinstance(n, ast.Assign) and isinstance(n.value, ast.Call) and isinstance(n.value.func, ast.Attribute) and n.value.func.attr in ("get_focus", "get_next", "get_prev") and isinstance(n.targets[0], ast.Tuple) and n.targets[0].elts and isinstance(n.targets[0].elts[0], ast.Name):
                 wn.add(n.targets[0].elts[0].id)
@@ -866,6 +879,8 @@ _C = "urwid/widget/columns.py"
 _G = "urwid/widget/grid_flow.py"
 _F = "urwid/widget/frame.py"
 MUTANTS = [
+    Mut("gridflow-focus-cell-truthy", "urwid/widget/grid_flow.py", "GridFlow._set_focus_from_display_widget", "        if c.focus is not None:  # an empty container cell is falsy but still the focus", "        if c.focus:", "SENTINEL|widget.grid_flow.GridFlow._set_focus_from_display_widget|widget c.focus tested for truthiness"),
+    Mut("pile-widget-list-reads-focus-of-empty", "urwid/widget/pile.py", "urwid.widget.pile.Pile.widget_list", "        focus_position = self.focus_position if self.contents else 0\n", "        focus_position = self.focus_position\n", "GUARD|widget.pile.Pile.widget_list|widget_list setter: focus_position read without emptiness guard"),
     Mut("walker-clamp-without-floor", "urwid/widget/listbox.py", "SimpleListWalker._modified", "            self.focus = max(0, len(self) - 1)", "            self.focus = len(self) - 1", "BOUND|widget.listbox.SimpleListWalker._modified|index clamped to len(self) - 1 without a floor of 0"),
     Mut("stale-position-only-indexerror", "urwid/widget/listbox.py", "ListBox._set_focus_complete", "        except (IndexError, KeyError):", "        except IndexError:", "EXC|widget.listbox.ListBox._set_focus_complete"),
     Mut("listbox-focus-position-truthy-widget", "urwid/widget/listbox.py", "ListBox._get_focus_position", "        if w is None:", "        if not w:", "SENTINEL|widget.listbox.ListBox._get_focus_position|widget w tested for truthiness"),
